@@ -244,6 +244,11 @@ def stepEnf (st : DrvState) (f : List String) : Option (DrvState × String) :=
      | none => some (st, "err:model")
      | some (e, r) => some ({ st with enf := { e with hasWatcher := watcher == "w" }, tbl := st.spec.tbl,
                                       cache := if st.wantCached then some [] else none, keptRm := none }, resS r))
+  | ["e.newpre", kind, content, text, _, _] =>
+    -- a model filled beforehand is loaded afresh by the constructor: same as `e.new`
+    (match Enforcer.new st.spec.defs st.spec.store (mkAdapter kind content text) with
+     | none => some (st, "err:model")
+     | some (e, r) => some ({ st with enf := e, tbl := st.spec.tbl, cache := if st.wantCached then some [] else none, keptRm := none }, resS r))
   | ["e.add", sec, pt, rule] => some (upd st (e.addPolicy sec pt (decList rule)))
   | ["e.addm", sec, pt, rules] => some (upd st (e.addPolicies sec pt (decLists rules)))
   | ["e.rm", sec, pt, rule] => some (upd st (e.removePolicy sec pt (decList rule)))
